@@ -1,5 +1,5 @@
 """One Spec per property: which driver profile generates the runs, which oracles are judged."""
-from . import drive_tree
+from . import drive_engine, drive_tree
 from .runner import Spec
 
 SPECS = {}
@@ -28,15 +28,24 @@ class TreeSpec(Spec):
     assumptions = TREE_ASSUME
     tiers = {"quick": dict(runs=8000, builds=("py",), wall=75), "thorough": dict(runs=150000, builds=("py", "cy"), wall=1500)}
 
+    engine_every = 0  # every n-th run is a real Backtest.run of a stock-algo stack (engine driver)
+
     def gen(self, r, tier, i):
+        if self.engine_every and i % self.engine_every == self.engine_every - 1:
+            return drive_engine.gen_engine_plan(r, "mixed", tier)
         return drive_tree.gen_plan(r, self.profile_for(r, i), tier)
 
     def profile_for(self, r, i):
         return self.profile
 
+    def execute(self, bt, plan):
+        if plan["driver"] == "engine":
+            return drive_engine.run_engine_plan(bt, plan, set(self.judged))
+        return drive_tree.run_plan(bt, plan, set(self.judged))
+
     def run(self, bt, plan):
-        sim = drive_tree.run_plan(bt, plan, set(self.judged))
-        info = {"stop_" + str(sim.stop_reason): 1, "observations": sim.nobs, "ops_executed": sim.nops_done, "trades": sim.model.ntrades, "transfers": sim.model.ntransfers, "root_updates": sim.root_updates}
+        sim = self.execute(bt, plan)
+        info = {"stop_" + str(sim.stop_reason): 1, "driver_" + plan["driver"]: 1, "observations": sim.nobs, "ops_executed": sim.nops_done, "trades": sim.model.ntrades, "transfers": sim.model.ntransfers, "root_updates": sim.root_updates}
         for k, v in sim.inconclusive.items():
             info["inconclusive_" + k] = v
         return dict(
@@ -46,7 +55,7 @@ class TreeSpec(Spec):
             states=sim.states,
             bigrams=sim.bigrams,
             dates=sim.ticks,
-            steps=sim.nops_done,
+            steps=sim.nops_done + len(getattr(sim, "spy_log", ())) + sim.root_updates,
             info=info,
         )
 
@@ -56,6 +65,8 @@ class TreeSpec(Spec):
     def simplifications(self, plan):
         out = []
         cfg = plan["cfg"]
+        if plan["driver"] != "tree":
+            return drive_engine.simplifications(plan)
         if cfg["comm"]["kind"] != "zero":
             out.append(dict(plan, cfg=dict(cfg, comm={"kind": "zero"})))
         f = plan["feed"]
@@ -83,6 +94,7 @@ class TreeSpec(Spec):
 @register
 class C01(TreeSpec):
     id = "C01"
+    engine_every = 4
     judged = ("C01",)
     own_checks = ("value_identity", "sec_value", "sec_price", "weight", "weight_sum", "ledger_pos", "ledger_cash", "ledger_value", "notional", "rows_value", "rows_cash", "rows_position", "rows_notional_value")
     tiers = {"quick": dict(runs=6000, builds=("py", "cy"), wall=75), "thorough": dict(runs=150000, builds=("py", "cy"), wall=1500)}
@@ -94,6 +106,7 @@ class C01(TreeSpec):
 @register
 class C02(TreeSpec):
     id = "C02"
+    engine_every = 4
     judged = ("C02",)
     own_checks = ("ledger_value", "ledger_cash", "ledger_pos", "conservation")
 
@@ -104,6 +117,7 @@ class C02(TreeSpec):
 @register
 class C03(TreeSpec):
     id = "C03"
+    engine_every = 4
     judged = ("C03",)
     own_checks = ("index_start", "index_recurrence", "root_flows", "rows_flows")
 
@@ -111,6 +125,7 @@ class C03(TreeSpec):
 @register
 class C07(TreeSpec):
     id = "C07"
+    engine_every = 4
     judged = ("C07",)
     own_checks = ("rows_fees", "rows_flows", "rows_outlay", "rows_bidoffer_paid", "cash_ledger", "ledger_cash", "comm_calls")
 
